@@ -421,6 +421,28 @@ func c02One(r *core.Run, fam string, s gen.Signed, aux int, c *choose.Ctx) {
 			r.Violate("C02|decode|"+entry+"|field:"+diffClass(diffs[0]), fmt.Sprintf("%s exposes different field values than encoded (%s): %s", entry, c.Describe(), strings.Join(diffs[:min(3, len(diffs))], "; ")), cs)
 		}
 		r.Distinct([]byte("dec"), []byte(fam), s.Bytes[:min(len(s.Bytes), 900)], []byte(c.Describe()))
+		// the parsed value's own serialisation is an encoding too: it must be the specification's layout
+		// of the same field values, i.e. the bytes the independent implementation produced
+		for _, pf := range parserFamiliesFor(fam, aux) {
+			if strings.HasSuffix(pf, "Exact") {
+				continue
+			}
+			for _, p := range adapt.ByFamily(pf) {
+				var res adapt.Parsed
+				if pan, _ := core.Guard(func() { res = p.Fn(s.Bytes) }); pan || !res.OK || res.Ser == nil || (res.HasRem && len(res.Rem) != 0) {
+					continue
+				}
+				var out []byte
+				var serr error
+				if pan, _ := core.Guard(func() { out, serr = res.Ser() }); pan || serr != nil {
+					continue
+				}
+				r.Evaluations.Add(1)
+				if !bytes.Equal(out, s.Bytes) {
+					r.Violate("C02|decode|"+p.Name+"|serialises-to-a-different-layout", fmt.Sprintf("%s accepts the well-formed %s and serialises it to %d bytes that differ from the specification encoding of the same field values (first difference at offset %d) (%s)", p.Name, fam, len(out), firstDiff(out, s.Bytes), c.Describe()), cs)
+				}
+			}
+		}
 	}
 	// encode direction
 	var out []byte
@@ -492,3 +514,4 @@ func replayC02(r *core.Run, c core.Case) {
 		}
 	}
 }
+
